@@ -1,3 +1,4 @@
+import Lm.Inst.CoreTie
 import Lm.Props.C13
 /-! # C03 — Event loop: events reach their owner; loop ends only for stated reasons
 
@@ -50,5 +51,11 @@ theorem C03_dispatch_is_the_loop_unrolled (s : St) (c : Ctx) (hm : mctx s = some
 
 /-- the `errno` line of a script changes nothing but the errno cell -/
 theorem C03_errno_line_only_sets_errno (c : Cfg) (e : Nat) : step c (.errno e) = { c with st := { c.st with errno := e } } := rfl
+
+
+/-- tie A: the guard prefixes of the entry points this property is about, re-extracted from the source on every run,
+are the ones the model transcribes (`Lm.Inst.CoreTie`) -/
+theorem C03_guards_in_source :
+    Lm.Inst.CoreTie.slice Lm.Generated.CoreGuards.guards ["m_ctx_loop", "m_ctx_dispatch", "m_ctx_quit"] = Lm.Inst.CoreTie.slice Lm.Inst.CoreTie.expected ["m_ctx_loop", "m_ctx_dispatch", "m_ctx_quit"] := by decide
 
 end Lm.Props.C03
